@@ -38,13 +38,47 @@ def gen_items(rng, n):
             # a comma followed by a blank: dialect inference and the given-dialect path must split it alike
             keys = keys + ["Note"]
             attrs += ";Note=binds DNA, RNA%d" % i
+        attrs += ";"              # (see mix_trailing below: some lines lose it again)
         items.append({"line": "\t".join([chrom, "src", t, str(s), str(s + rng.randrange(0, 50)), ".", rng.choice("+-"), ".", attrs]),
                       "id": "i%d" % i, "flag": s % 2 == 1, "type": t, "chrom": chrom, "keys": keys})
+    if rng.random() < 0.5:
+        mix_trailing(rng, items)
+    else:
+        for it in items:
+            it["line"] = it["line"][:-1]
     for it in items:
         f = it["line"].split("\t")
         f[1] = "renamed"
         it["renamed"] = "\t".join(f)
     return items
+
+
+def trailing_ok(items):
+    """in every prefix the lines that end their attribute column with ';' outweigh (by attribute count, ties to the first
+    line) those that do not: whatever the window, the chosen dialect has the trailing semicolon, and every form prints every
+    line with it (when the vote goes the other way the file parser and the per-line parser read a later '...;' line
+    differently - an empty last key or none - which is outside what the forms have in common)"""
+    wt = wf = 0
+    for i, it in enumerate(items):
+        w = len(it["keys"])
+        if it["line"].endswith(";"):
+            wt += w
+        else:
+            wf += w
+        if wf and (i == 0 or wf > wt):
+            return False
+    return True
+
+
+def mix_trailing(rng, items):
+    wt = wf = 0
+    for i, it in enumerate(items):
+        w = len(it["keys"])
+        if i > 0 and wf + w <= wt and rng.random() < 0.6:
+            it["line"] = it["line"][:-1]
+            wf += w
+        else:
+            wt += w
 
 
 def gen_cases(rng, tier):
@@ -72,7 +106,8 @@ def gen_cases(rng, tier):
 def valid_case(c):
     try:
         if c["k"] == "forms":
-            return bool(c["items"]) and c["t"] in TFORMS and c["checklines"] >= 0 and len(set(i["id"] for i in c["items"])) == len(c["items"])
+            return bool(c["items"]) and c["t"] in TFORMS and c["checklines"] >= 0 and len(set(i["id"] for i in c["items"])) == len(c["items"]) \
+                and (trailing_ok(c["items"]) or not any(i["line"].endswith(";") for i in c["items"]))
         if c["k"] == "peek":
             return c["n"] >= 0 and c["len"] >= 0
         if c["k"] == "inspect":
@@ -126,7 +161,13 @@ def make_form(form, path, gzpath, text, c):
         return gzpath, {}
     if form == "string":
         return text, {"from_string": True}
-    feats = list(iterators.DataIterator(path))
+    # ready-made Feature objects, each parsed on its own (and so carrying the dialect of its own line)
+    from gffutils.feature import feature_from_line
+    feats = [feature_from_line(i["line"]) for i in c["items"]]
+    if any(", " in i["line"] for i in c["items"]):
+        # 'a, b' values: the inferring parser keeps them whole, the given-dialect parser splits them (upstream #198/#208) -
+        # two readings of one text, so here the objects are the ones the file parser makes
+        feats = list(iterators.DataIterator(path, checklines=c["checklines"]))
     if form == "list":
         return feats, {}
     if form == "genexp":
@@ -145,7 +186,7 @@ def make_form(form, path, gzpath, text, c):
     if form == "dataiter":
         return iterators.DataIterator(path, checklines=c["checklines"]), {}
     if form == "db":
-        return gffutils.create_db(path, ":memory:"), {}
+        return gffutils.create_db(path, ":memory:", checklines=c["checklines"]), {}
     raise ValueError(form)
 
 
@@ -237,8 +278,9 @@ def run_impl(c):
 
 
 def coq_items(items):
-    return L.lst(["(mkIt %s %s %s %s %s %s %s)" % (L.s(i["line"]), L.s(i["id"]), L.b(i["flag"]), L.s(i["renamed"]), L.s(i["type"]),
-                                                L.s(i["chrom"]), L.ss(i["keys"])) for i in items], "it")
+    base = lambda l: l[:-1] if l.endswith(";") else l
+    return L.lst(["(mkIt %s %s %s %s %s %s %s %s)" % (L.s(base(i["line"])), L.s(i["id"]), L.b(i["flag"]), L.s(base(i["renamed"])), L.s(i["type"]),
+                                                   L.s(i["chrom"]), L.ss(i["keys"]), L.b(i["line"].endswith(";"))) for i in items], "it")
 
 
 def coq_case(c, o):
